@@ -16,7 +16,7 @@ CHECKS = {
    "Held (apart from the recorded deletion-marker finding) on generated sequential histories with prefix-related key names and hostile values on single- and multi-partition engines: every Get/List/limited List/Count at every sampled reported revision equals the reference snapshot, before and after more writes and a compaction below, and after a transient iterator error retried by the scanner.",
    "reads only at revisions the node reported and not below the compaction floor"),
  "C11": ("exploration", "lock-step differential run of generated operation sequences against a sorted-map reference, per engine and behind the metrics wrapper", "5 C11",
-   "Held on generated batch/get/delete/iterate sequences on memkv, Badger and the TiKV mock, each also behind the production metrics wrapper with the real Prometheus client: all-or-nothing batches, conditions evaluated exactly and reported as failed conditions, iterators bounded, ordered and snapshot-consistent; concurrent readers do not disturb each other and concurrent conditional writers are atomic (exactly one put-if-absent wins, no CAS increment is lost).",
+   "Held on generated batch/get/delete/iterate sequences on memkv, Badger and the TiKV mock, each also behind the production metrics wrapper with the real Prometheus client: all-or-nothing batches, conditions evaluated exactly and reported as failed conditions, iterators bounded, ordered and snapshot-consistent; a batch overtaken by another writer between its begin and its commit (TiKV) is still all-or-nothing; concurrent readers do not disturb each other and concurrent conditional writers are atomic (exactly one put-if-absent wins, no CAS increment is lost).",
    "only the documented contract of pkg/storage/interface.go is demanded; TTL always 0; ops of one batch touch distinct keys"),
  "C08": ("exploration", "monitor over generated compaction/read sequences: floor=max(accepted), stored record and refusal of reads below it", "5 C08",
    "Held on generated sequences of compaction requests (increasing, repeated, older, zero, above current) interleaved with writes: the stored record never dropped below the highest accepted revision and every List/ListByStream below it was refused, on the compacting node and on a second node over the same store, including streams spanning several 300-kv batches (no data before the refusal), and when two compaction requests overlap (the first held at an access to the record while the second completes); reads at/above it equal the reference snapshot.",
@@ -58,7 +58,7 @@ CHECKS = {
    "Held on generated histories mixing Event keys with look-alike keys on engines without native TTL (built-in compaction expiry, scanner driven directly and through a backend) and with native TTL (memkv, Badger), plus 1h-TTL controls: whatever lost records was an Event under <prefix>/events/, older than the TTL, removed wholly, creatable again, and no watch event was produced; also for events deleted and created again, with a client update placed inside the expiry and with a storage error on the removal of an index record.",
    "expiry is never demanded, only constrained; a key counts as younger than the TTL only if its newest write BEGAN less than TTL before the observation"),
  "C18": ("exploration", "call-recording backend + scripted peers under the real revision syncer (role matrix); two-node follower-read monitor with interleavings placed by the revision verif hooks", "5 C18",
-   "Held on the full role matrix (every request type of both APIs, watches from the next revision and from revision 0, x leader/follower x proxy on/off x leader reachable/unreachable/400/500) (incl. a recorded leader that is a real node which is not leading, answered by pkg/server's real /status handler) and on two-node runs with concurrent follower reads while the leader writes, including the placed schedules 'reader delayed between fetch and set' and 'five readers setting different revisions at the same instant', and on production pairs (two nodes started through pkg/endpoint with the real election, syncer and etcd proxy; requests to the follower's client port over gRPC).",
+   "Held on the full role matrix (every request type of both APIs, watches from the next revision and from revision 0, x leader/follower x proxy on/off x leader reachable/unreachable/400/500/answer cut off/answer with a foreign body) (incl. a recorded leader that is a real node which is not leading, answered by pkg/server's real /status handler) and on two-node runs with concurrent follower reads while the leader writes, including the placed schedules 'reader delayed between fetch and set' and 'five readers setting different revisions at the same instant', and on production pairs (two nodes started through pkg/endpoint with the real election, syncer and etcd proxy; requests to the follower's client port over gRPC).",
    "the etcd proxy and the election are stubs; the leader's status endpoint re-serves the logic of server.revisionHandler"),
  "C20": ("exploration", "generated hostile protobuf-round-tripped requests against a node wired with the real Prometheus client; panic/crash capture, metric label-set recorder (per node and process-wide), probe write + conservation monitor after every request; metric call-site tour over two real nodes", "5 C20",
    "Held on a burst of concurrent first requests and on generated hostile requests to both APIs (every 4th case over a real loopback gRPC connection with the production interceptors) with production metrics: every call returned, nothing panicked (in the handler or in background goroutines), no metric name was emitted with two label sets, and after every request a probe write became readable and watchable. Every 24th case tours the metric call sites a healthy leader never reaches (two real nodes from server.NewServer, follower role, faults, overflow) under a process-wide metric-signature table; names reached are listed in evidence.",
